@@ -31,6 +31,11 @@
 #define VF_DUMMY_INIT /* value returned while an exception propagates: never read, left nondeterministic */
 #endif
 
+#ifdef VF_TRACK_ALLOC
+#define VF_GHOST_ALLOC_ , vf_trk_ptr, vf_trk_kind, vf_max_alloc
+#else
+#define VF_GHOST_ALLOC_
+#endif
 /* ghost character index used by spliced loop invariants (defined by every contract source) */
 extern size_t vf_gc;
 
